@@ -39,11 +39,17 @@ class C12(vlib.PropertyCheck):
                        'tok with the delimiter sets {NULL, ":", " :", "ab"} and through num_words / get_word / get_pword '
                        'for every index 0..n+1; a second bounded stratum does the same over these eight characters plus '
                        'their eight high-bit twins (c|0x80) and adds split/tok with delimiter sets containing bytes >= 0x80; '
+                       'tok object histories (tokobj): one object evaluated two and three times with source, separators and '
+                       'quote/dquote/escape characters changed in between, copied (continue with the copy; evaluate the copy and drop '
+                       'it), reset; every pair of token counts from {0,1,2,3,4,5,8,31..33,63..65,255..257,511..513} before/after a '
+                       'change; every string over the eight characters up to length 3 as the source of a SECOND evaluation; a history '
+                       'is non-trivial when it prints at least two results one of which has a token; '
                        'distinct = distinct case lines')
     assumptions = ['inputs are valid C strings in exactly sized heap blocks (the harness allocates them so)',
                    'object sizes below 2^31 (counters are modelled as unbounded integers)',
                    '"C" locale isspace; the delimiter set is a valid C string or NULL',
-                   'tok uses its default quote, dquote and escape characters',
+                   'tok quote, dquote and escape members hold any byte (set through their setters); split has no such members '
+                   'and is compared with tok only while they hold the defaults',
                    'spif_str_trim strips all leading and trailing whitespace (the C01 repair of str.c)']
 
     MANIFEST = dict(
@@ -58,9 +64,16 @@ class C12(vlib.PropertyCheck):
               'length (words s), get_word i s is the i-th element of words s for every 1 <= i <= num_words s, get_pword i s = '
               'pword_spec i s for every i (C12_num_words_counts_words, C12_get_word_is_ith_word, C12_get_pword_points_at_ith_ws_word); '
               'no function faults on the block that holds exactly s and its terminator, for every s including a final backslash and '
-              'unbalanced quotes (C12_scanners_stay_inside). Nothing is left _partial. Not modelled: the str/list objects that hold '
-              'tok\'s tokens (property C01/C02; tokens are byte lists, trimmed as the repaired spif_str_trim does), tok\'s '
-              'configurable quote/escape members (defaults only), get_word results outside 1..n other than index 0 (left open by the '
+              'unbalanced quotes (C12_scanners_stay_inside). The tok OBJECT (C12_tokobj.v, Split/TokObjModel.v): members src, sep, '
+              'quote, dquote, escape, tokens with their setters, eval on an object evaluated before, dup, done; the scanner restated over '
+              'the three character members equals the grammar over them for every configuration (C12_tok_eval_any_quotes_is_grammar) and '
+              'is C12.v\'s scanner and grammar at the defaults (C12_tok_default_quotes_scanner/_grammar); for every list of operations '
+              'set_src/set_sep/set_quote/set_dquote/set_escape/eval/dup/fork/done from any object the model never faults and every '
+              'evaluation yields the trimmed grammar tokens of the members the object has at that moment, nothing of an earlier '
+              'evaluation (C12_tok_history_exact, C12_tok_second_eval). Nothing is left _partial. Not modelled: the str/list objects that '
+              'hold tok\'s tokens (property C01/C02; tokens are byte lists, trimmed as the repaired spif_str_trim does; that eval '
+              'replaces the list and dup copies it deeply is decided by the correspondence check, under ASan), get_word results outside '
+              '1..n other than index 0 (left open by the '
               'property; the model follows the code and the check compares them at level B). The model is tied to the current tree by '
               'running its extracted OCaml form and the ASan/UBSan build of src/strings.c, src/tok.c on the same cases: every string '
               'over {a, b, space, tab, \', ", \\, :} up to length 5 (quick) / 7 (thorough) through split and tok with the delimiter sets '
@@ -69,7 +82,15 @@ class C12(vlib.PropertyCheck):
               'through split and tok with eleven delimiter sets containing bytes >= 0x80; every byte value 1..255 as text, as delimiter and '
               'next to its twin; random strings up to 300 bytes over all 255 non-NUL values with further delimiter sets (drawn from the '
               'string and from the twins of its characters), join and join-then-split cases with high bytes in tokens and separators, and '
-              'the 65536-token boundary of split; the driver also compares the model with the extracted specification on every case.'),
+              'the 65536-token boundary of split; tok object histories (one real spif_tok_t through set_src/set_sep/set_quote/'
+              'set_dquote/set_escape/eval/dup/done, token list read after every evaluation and off every copy; while the quote '
+              'characters are the defaults each evaluation is also compared, inside the harness output and by a model-independent oracle, '
+              'with spiftool_split of the object\'s current source and separators): all pairs and triples of token counts 0..8 and '
+              '31..33, 63..65, 255..257, 511..513 around a change of source/separators, repeated plain evaluation, evaluation after dup, '
+              'dup after the second evaluation, every string over the eight special characters up to length 3 (4 thorough) as the '
+              'source of a second evaluation with each delimiter set, eleven quote/escape character values (defaults, |, high-bit '
+              'twins, NUL, blank, a delimiter, a letter) set and set back, 1500 (30000) random histories; '
+              'the driver also compares the model with the extracted specification on every case.'),
         design_ref='DESIGN.md section 7, C12')
 
     EXH_QUICK = 5
@@ -102,7 +123,8 @@ class C12(vlib.PropertyCheck):
     def fixed_cases(self, rng, tier):
         cases = []
         # the 65536-token boundary of split's token counter (specification only on the model side)
-        # (65536 itself is in corpus/C12 and runs every time)
+        # 65536 itself (the minimised failing input of the repaired counter defect) runs every time, once: 10 s under ASan
+        cases.append('splitbig N 6120 65536')
         if tier == 'thorough':
             cases += ['splitbig N 6120 65535', 'splitbig N 6120 65537', 'splitbig 3a 3a61 65537']
         # join: every list of up to 3 tokens over a small token set x separators; NULL and empty array
@@ -168,8 +190,126 @@ class C12(vlib.PropertyCheck):
                 cases.append('%s %s %s' % (op, d, hx(s)))
         return cases
 
+    # ---- tok OBJECT histories (harness/c12.c "tokobj"): one object evaluated two and three times with its source,
+    #      separators and quote characters changed in between, copied, reset ----
+    # token counts of the evaluation that precedes / follows a change: empty, one, two (the first count at which a
+    # stale element can survive), the list implementations' strides and their neighbours
+    TOK_COUNTS_SMALL = [0, 1, 2, 3, 4, 5, 8]
+    TOK_COUNTS_BIG = [31, 32, 33, 63, 64, 65, 255, 256, 257, 511, 512, 513]
+    QCHARS = ['27', '22', '5c', '7c', 'a7', 'a2', 'dc', '00', '20', '3a', '61']     # ' " \ | twins-of-'"\ NUL space : a
+
+    @staticmethod
+    def numbered(k, sep=0x20, salt=0):
+        """a source with exactly k distinct, recognisable tokens (letters only) separated by sep"""
+        out = []
+        for i in range(k):
+            if i:
+                out.append(sep)
+            v, w = i + salt * 7, []
+            while True:
+                w.append(0x62 + v % 20)         # b..u: none of them is in a delimiter set used with these sources
+                v //= 20
+                if not v:
+                    break
+            out += [0x76 + salt % 4] + w        # v..y marks which source the token came from
+        return out
+
+    def tokobj_cases(self, tier, rng):
+        quick = (tier == 'quick')
+        cases = []
+        H = lambda ops: cases.append('tokobj ' + ' ; '.join(ops))
+        nm = self.numbered
+        # 1. every pair / triple of token counts: eval, new source, eval (, new source, eval); plain repeated eval;
+        #    eval after dup, dup after the second eval, the copy evaluated and dropped, reset and reuse
+        cnts = self.TOK_COUNTS_SMALL
+        for k1 in cnts + self.TOK_COUNTS_BIG:
+            for k2 in cnts + ([] if k1 in self.TOK_COUNTS_BIG and quick else self.TOK_COUNTS_BIG[:6] if quick else self.TOK_COUNTS_BIG):
+                if quick and k1 > 65 and k2 not in (0, 1, 3):
+                    continue
+                s1, s2 = hx(nm(k1, 0x20, 0)), hx(nm(k2, 0x20, 1))
+                H([s1, 'eval', 'src ' + s2, 'eval'])
+                if k1 <= 65 and k2 <= 65:
+                    c1, c2 = hx(nm(k1, 0x3a, 2)), hx(nm(k2, 0x3a, 3))
+                    H([c1, 'sep 3a', 'eval', 'src ' + c2, 'eval'])
+                    H([s1, 'eval', 'src ' + c2, 'sep 3a', 'eval', 'dup', 'eval'])
+                    H([c1, 'eval', 'sep 3a', 'eval', 'sep N', 'eval'])
+            s1 = hx(nm(k1, 0x20, 0))
+            H([s1, 'eval', 'eval'])
+            H([s1, 'eval', 'eval', 'eval', 'dup'])
+            H([s1, 'eval', 'dup', 'eval', 'dup', 'eval'])
+            H([s1, 'dup', 'eval', 'fork', 'eval'])
+            H([s1, 'eval', 'fork', 'src ' + hx(nm(3, 0x20, 1)), 'fork', 'eval', 'fork'])
+            H([s1, 'eval', 'done', 'eval', 'src ' + hx(nm(2, 0x20, 1)), 'eval', 'dup'])
+            H(['N', 'eval', 'src ' + s1, 'eval', 'src N', 'eval', 'dup', 'src ' + hx(nm(2, 0x20, 1)), 'eval'])
+        for k1 in cnts:
+            for k2 in cnts:
+                for k3 in (0, 1, 2, 4):
+                    H([hx(nm(k1, 0x20, 0)), 'eval', 'src ' + hx(nm(k2, 0x3a, 1)), 'sep 3a', 'eval',
+                       'src ' + hx(nm(k3, 0x20, 2)), 'sep N', 'eval'])
+                    H([hx(nm(k1, 0x09, 0)), 'eval', 'src ' + hx(nm(k2, 0x20, 1)), 'eval', 'dup',
+                       'src ' + hx(nm(k3, 0x20, 2)), 'eval'])
+        # 2. the grammar on a SECOND evaluation: every string over the eight special characters up to length 3 (quick) /
+        #    4 (thorough) as the new source of an object that already holds three tokens, with each delimiter set
+        first = hx(nm(3, 0x20, 0))
+        for n in range(0, (3 if quick else 4) + 1):
+            for t in strings_of(n, ALPHA):
+                h = hx(t)
+                for d in DSETS:
+                    H([first, 'eval', 'src ' + h, 'sep ' + d, 'eval'])
+        #    ... and as the FIRST source, followed by a plain one (length <= 2 / 3)
+        for n in range(1, (2 if quick else 3) + 1):
+            for t in strings_of(n, ALPHA16):
+                H([hx(t), 'eval', 'src ' + first, 'eval', 'src ' + hx(t), 'sep 3a', 'eval'])
+        # 3. quote, dquote and escape setters between evaluations of one source, and set back to the defaults
+        texts = [[0x61, 0x7c, 0x62, 0x20, 0x63, 0x7c, 0x64], [0x27, 0x61, 0x20, 0x62, 0x27, 0x20, 0x22, 0x63, 0x20, 0x64, 0x22],
+                 [0x61, 0x5c, 0x20, 0x62, 0x20, 0x63, 0x7c, 0x20, 0x64], [0xa7, 0x61, 0x20, 0x62, 0xa7, 0x20, 0x27, 0x63, 0x27],
+                 [0x61, 0x3a, 0x62, 0x5c, 0x3a, 0x63, 0x7c, 0x3a, 0x64], [0x7c, 0x61, 0x5c, 0x7c, 0x62, 0x7c, 0x20, 0x63]]
+        for tx in texts:
+            h = hx(tx)
+            for c in self.QCHARS:
+                for (setter, dflt) in (('q', '27'), ('dq', '22'), ('esc', '5c')):
+                    H([h, 'eval', '%s %s' % (setter, c), 'eval', '%s %s' % (setter, dflt), 'eval'])
+                    H([h, 'sep 3a', '%s %s' % (setter, c), 'eval', 'dup', 'eval', 'done', 'src ' + h, 'eval'])
+            for c1 in self.QCHARS[:8]:
+                for c2 in self.QCHARS[:8]:
+                    H([h, 'q ' + c1, 'dq ' + c2, 'eval', 'esc ' + c1, 'eval', 'fork'])
+        # 4. random histories over random sources
+        for _ in range(1500 if quick else 30000):
+            nsrc = rng.choice([1, 2, 3, 4])
+            srcs = []
+            for _ in range(nsrc + 1):
+                m = rng.random()
+                n = rng.choice([0, 1, 2, 3, 5, 8, 13, 30, 80])
+                alpha = ALPHA if m < 0.5 else (ALPHA16 if m < 0.8 else ALPHA + EXTRA + [rng.randrange(1, 256) for _ in range(6)])
+                srcs.append(hx([rng.choice(alpha) for _ in range(n)]) if rng.random() < 0.8
+                            else hx(nm(rng.choice([2, 3, 6, 33, 64]), rng.choice([0x20, 0x3a, 0x09]), rng.randrange(4))))
+            ops = [srcs[0] if rng.random() < 0.9 else 'N']
+            nev = 0
+            for _ in range(rng.choice([3, 4, 6, 9, 12])):
+                r = rng.random()
+                if r < 0.30:
+                    ops.append('eval'); nev += 1
+                elif r < 0.50:
+                    ops.append('src ' + (rng.choice(srcs) if rng.random() < 0.95 else 'N'))
+                elif r < 0.65:
+                    ops.append('sep ' + rng.choice(DSETS + DSETS + ['-', '2027', '20093a'] + HDSETS[:4]))
+                elif r < 0.75:
+                    ops.append(rng.choice(['q', 'dq', 'esc']) + ' ' + rng.choice(self.QCHARS))
+                elif r < 0.80:
+                    ops.append(rng.choice(['q 27', 'dq 22', 'esc 5c']))
+                elif r < 0.88:
+                    ops.append('dup')
+                elif r < 0.96:
+                    ops.append('fork')
+                else:
+                    ops.append('done')
+            ops.append('eval')
+            H(ops)
+        return cases
+
     def gen(self, tier, rng):
         cases = self.fixed_cases(rng, tier)
+        cases += self.tokobj_cases(tier, rng)
         top = self.EXH_QUICK if tier == 'quick' else self.EXH_MAIN_THOROUGH
         for n in range(top + 1):
             for t in strings_of(n, ALPHA):
@@ -237,6 +377,25 @@ class C12(vlib.PropertyCheck):
         cov['exhaustive'] = dict(alphabet='a b space tab \' " \\ :', max_len=n, delimiter_sets=DSETS)
         return out
 
+    WS = b' \t\n\x0b\x0c\r'
+
+    def oracle(self, case, iout):
+        """model-independent: in a tok object history every evaluation made with the default quote characters is printed
+        as 'T n t.. / T m s..' = the object's tokens and spiftool_split() of its CURRENT source with its CURRENT
+        separators; tok trims each token and otherwise they must be the same list (the property's 'the two agree with
+        each other token for token')"""
+        if not case.startswith('tokobj '):
+            return None
+        for part in iout.split(' ; '):
+            if ' / ' not in part:
+                continue
+            a, b = part.split(' / ', 1)
+            ta, tb = a.split()[2:], b.split()[2:]
+            trimmed = [(bytes.fromhex(x) if x != '-' else b'').strip(self.WS).hex() or '-' for x in tb]
+            if ta != trimmed:
+                return 'tok object and split disagree on the same source: tok %s / split %s' % (a, b)
+        return None
+
     def split(self, case, out):
         op = case.split(' ', 1)[0]
         if op == 'words':
@@ -251,6 +410,10 @@ class C12(vlib.PropertyCheck):
     def nontrivial(self, case, mout):
         if mout.startswith('FAULT') or mout == 'NULL':
             return False
+        if case.startswith('tokobj '):
+            # at least two evaluations (or an evaluation and a copy) with a token in one of them
+            parts = mout.split(' ; ')
+            return len(parts) >= 2 and any(p.startswith(('T ', 'D T ')) and not p.startswith(('T 0', 'D T 0')) for p in parts)
         return ('T 0' != mout) and ('N 0' not in mout.split(' ; ')[0] or ' T ' in mout)
 
 CHECK = C12()
